@@ -155,6 +155,13 @@ Definition bad_pack_prog (ixs oixs : list ext) (y : name) (listed plan : list na
   new_pack ixs y ++ flat_map (obsolete_pack oixs) plan
   ++ save_names (remove_all plan (listed ++ [y])) [].
 
+(* a NON-atomic write of pack-names (put_file_non_atomic = open(O_TRUNC) + write): the file is empty
+   in between (on disk even unreadable; "lists nothing" is the most favourable reading).  The code must
+   not do this (sanity theorem C04_nonatomic_names_write_breaks); the harness splits every non-atomic put
+   into truncate / partial write / write crash points so that the oracle sees it. *)
+Definition nonatomic_save_names (l : list name) : list op :=
+  [OLock; OPutNames []; OPutNames l; OUnlock].
+
 (* ---------- the discipline that makes every crash prefix good (executable form) ---------- *)
 Definition op_files (o : op) : list file :=
   match o with
